@@ -4,7 +4,7 @@ import re
 
 from . import dfa, refparser, rulegen, worker
 from .c09 import calibrate, source_overlay, stub
-from .c11 import near_duplicate, outside_pair, strip_comment
+from .c11 import near_duplicate, outside_pair, padded_pair, strip_comment
 from .common import digest, pmap
 
 TOP = "<all>"
@@ -160,8 +160,9 @@ def run(ctx):
         elif stratum == "near-duplicate":
             a = rng.choice(pool)
             b = near_duplicate(rng, a) or rng.choice(pool)
-            if rng.random() < 0.25:
-                ab = outside_pair(rng, a)
+            x_ = rng.random()
+            if x_ < 0.4:
+                ab = outside_pair(rng, a) if x_ < 0.2 else padded_pair(rng, a)
                 if ab:
                     a, b = ab
             lst = [a, b] + [rng.choice(pool) for _ in range(rng.randint(0, 2))]
